@@ -1,6 +1,6 @@
 (* C05 — Grammar analysis is exact: productions, minimum depths, recursion.
    Only statements closed by [exact]; Print Assumptions; non-vacuity example. *)
-From GE Require Import Base Grammar RegProofs WellTyped DistProofs UsableProofs KnownRefuted.
+From GE Require Import Base Grammar RegProofs RegFields WellTyped DistProofs UsableProofs StackProofs KnownRefuted.
 Open Scope Z_scope.
 
 (* productions: for every class hierarchy, the rules of the analysed grammar have unique keys, each
@@ -14,6 +14,16 @@ Theorem C05_alternatives_exact : forall d order g,
                (mem_sym (SC c) (r_nodes (g_reg g)) = true /\ parent_of d c = Some p)).
 Proof. exact alternatives_exact. Qed.
 Print Assumptions C05_alternatives_exact.
+
+(* the extracted grammar is closed under field types: every symbol a field of a registered concrete class mentions - through
+   lists, tuples, unions and annotations - is itself a symbol of the grammar (so every production's arguments can be derived
+   inside the grammar) *)
+Theorem C05_registered_closed_under_fields : forall d order g,
+  extract d order = Ok g ->
+  forall c, mem_sym (SC c) (r_nodes (g_reg g)) = true -> is_abstract (g_decl g) (SC c) = false ->
+  forall a, In a (fields_of (g_decl g) (SC c)) -> forall sy, In sy (explode a) -> mem_sym sy (r_nodes (g_reg g)) = true.
+Proof. exact extract_fields_registered. Qed.
+Print Assumptions C05_registered_closed_under_fields.
 
 (* minimum depths (default depth mode), for every hierarchy and EVERY iteration order of the symbol
    set: the reported distance of a class is a lower bound on the depth of every derivable program
